@@ -145,6 +145,19 @@ let exec (toks : string list) : string =
     cur := build kind elem path rest;
     (match !cur with Nothing -> "-" | Faulted e -> fault_s e | _ -> "OK")
   | "Q" :: op :: args -> query op (List.map n_of_string args)
+  | "FN" :: "selword" :: w :: k :: _ -> sv sn (select_in_word (n_of_string w) (n_of_string k))
+  | "FN" :: "selword128" :: w :: k :: _ -> sv sn (select_in_word_u128 (n_of_string w) (n_of_string k))
+  | "FN" :: "popcnt" :: n :: ws ->
+    let n = int_of_string n in
+    let n = if n = 1 || n = 2 || n = 3 || n = 4 || n = 8 then n else 16 in
+    let rec nat_of_int i = if i = 0 then O else S (nat_of_int (i - 1)) in
+    "V" ^ sn (popcnt_wide (nat_of_int n) (List.map n_of_string ws))
+  | "FN" :: "msb" :: w :: v :: _ -> sv sn (msb_w (n_of_int (min 128 (if w = "65" then 64 else int_of_string w))) (n_of_string v))
+  | "FN" :: "part4" :: w :: shift :: vs ->
+    let w = int_of_string w in
+    let w = if w = 65 then 64 else if w > 128 then 128 else w in
+    (match stable_partition_of_4 (n_of_int w) (List.map n_of_string vs) (n_of_string shift) with
+     | Val l -> join (List.map sn l) | Fault e -> fault_s e)
   | _ -> "-"
 
 let () =
